@@ -32,6 +32,9 @@ def type_facts(v):
     """Facts every value of this type satisfies."""
     if isinstance(v.ty, Seq):
         return [v.len >= 0]
+    if isinstance(v.ty, Bag):
+        x = fresh("tf", v.ty.e.sort())
+        return [z3.ForAll([x], v.t[x] >= 0, patterns=[v.t[x]])]
     if isinstance(v.ty, Opt):
         return type_facts(v.val)
     if isinstance(v.ty, Obj):
